@@ -247,6 +247,22 @@ class Statement(object):
                 raw_post_byte |= self.code_pkg.post_byte_choices[1]
                 self.code_pkg.post_byte = NumericValue(raw_post_byte)
 
+    def fit_additional_to_size(self):
+        """
+        Renders the operand bytes of a machine instruction at exactly the width
+        that the statement reserves for them (the instruction decides the width,
+        not the way the value was written), using two's complement for negative
+        values. Raises a TranslationError if the value does not fit.
+        """
+        if self.instruction.is_pseudo or not self.code_pkg.additional.is_numeric():
+            return
+        width = self.code_pkg.size - self.code_pkg.op_code.byte_len() - self.code_pkg.post_byte.byte_len()
+        value = self.code_pkg.additional
+        number = -value.int if value.is_negative() else value.int
+        if width < 1 or number >= (1 << (8 * width)) or number < -(1 << (8 * width - 1)):
+            raise TranslationError("Operand value does not fit in {} byte(s)".format(max(width, 0)), self)
+        self.code_pkg.additional = NumericValue(number & ((1 << (8 * width)) - 1), size_hint=width * 2)
+
     def fix_addresses(self, statements, this_index):
         """
         Once all of the statements have been translated, all of the addresses
